@@ -265,6 +265,35 @@ def closure_problem(schema):
                       "@%s(%s)" % (dname, a.name))
             if p:
                 return p
+
+    # by-name indexes of members (what validation, diffing and coercion look
+    # members up in) list exactly the members, as the very same objects
+    def index(where, mapping, members):
+        want_ = {m.name: m for m in members}
+        if set(mapping) != set(want_):
+            return ("member-index", "%s: index lists %r, members are %r" % (
+                where, sorted(mapping), sorted(want_)))
+        for k, m in want_.items():
+            if mapping[k] is not m:
+                return ("member-index", "%s: index entry %r is another "
+                        "object than the member" % (where, k))
+        return None
+
+    for dname, d in schema.directives.items():
+        p = index("@%s arguments" % dname, d.argument_map, d.arguments)
+        if p:
+            return p
+    for name, t in reg.items():
+        if isinstance(t, (ObjectType, InterfaceType, InputObjectType)):
+            p = index("%s fields" % name, t.field_map, t.fields)
+            if p:
+                return p
+        if isinstance(t, (ObjectType, InterfaceType)):
+            for f in t.fields:
+                p = index("%s.%s arguments" % (name, f.name),
+                          f.argument_map, f.arguments)
+                if p:
+                    return p
     # derived indexes agree with the registry
     want = {}
     for name, t in reg.items():
